@@ -73,6 +73,28 @@ CallOk(op, sub, call) ==
     [] op = "test" -> call = "actor::ActivityTestSimcall"
     [] OTHER -> TRUE
 
+\* C43: the transition as the checker decoded it (hook H4, merged into the handle line by the harness: ctype, cobj, cown /
+\* ccap / cfrom / cto, ca = actor the checker believes it ran) must be the one the application executed and the one the
+\* specification predicts for this operation
+McType(op, sub) ==
+  CASE op = "lock" /\ sub = 1 -> "MUTEX_ASYNC_LOCK"  [] op = "lock" /\ sub = 2 -> "MUTEX_WAIT"
+    [] op = "trylock" -> "MUTEX_TRYLOCK"            [] op = "unlock" -> "MUTEX_UNLOCK"
+    [] op = "acq" /\ sub = 1 -> "SEM_ASYNC_LOCK"     [] op = "acq" /\ sub = 2 -> "SEM_WAIT"      [] op = "rel" -> "SEM_UNLOCK"
+    [] op = "bar" /\ sub = 1 -> "BARRIER_ASYNC_LOCK" [] op = "bar" /\ sub = 2 -> "BARRIER_WAIT"
+    [] op \in {"puta", "putd"} \/ (op = "put" /\ sub = 1) -> "iSend"
+    [] op = "geta" \/ (op = "get" /\ sub = 1) -> "iRecv"
+    [] op = "wait" \/ (op \in {"put", "get"} /\ sub = 2) -> "WaitComm"
+    [] op = "test" -> "TestComm"                    [] op = "sleep" -> "ActorSleep"
+    [] OTHER -> "?"
+CheckerAgrees(ln, base, new) ==
+  LET a == ln.a   op == Cur(P, base, a)   t == McType(op.op, base.sub[a]) IN
+  /\ ln.ca = a /\ ln.ctype = t
+  /\ (t \in {"MUTEX_ASYNC_LOCK", "MUTEX_WAIT", "MUTEX_TRYLOCK", "MUTEX_UNLOCK"} => ln.cobj = op.o /\ ln.cown = new.own[op.o])
+  /\ (t \in {"SEM_ASYNC_LOCK", "SEM_WAIT", "SEM_UNLOCK"} => ln.cobj = op.o /\ ln.ccap = new.val[op.o])
+  /\ (t \in {"BARRIER_ASYNC_LOCK", "BARRIER_WAIT", "iSend", "iRecv"} => ln.cobj = op.o)
+  /\ (t = "WaitComm" => LET c == IF op.op = "wait" THEN base.hnd[a][op.o].c ELSE base.cur[a] IN
+                          ln.cobj = new.act[c].mb /\ ln.cfrom = new.act[c].src /\ ln.cto = new.act[c].dst)
+
 THandle == /\ Live /\ Ln.e = "handle" /\ Ln.a \in Actors(P)
            /\ \/ st.ph[Ln.a] = "issued"
               \/ MoreSub(P, st, Ln.a) /\ Ln.a \notin pend       \* next simcall of the same operation (put = isend + wait)
@@ -80,6 +102,8 @@ THandle == /\ Live /\ Ln.e = "handle" /\ Ln.a \in Actors(P)
               /\ (P.gran = "mc" \/ CallOk(Cur(P, base, Ln.a).op, base.sub[Ln.a], Ln.call))
               /\ (P.gran = "mc" => EnabledMC(P, base, Ln.a))        \* C43: the checker only fires enabled transitions
               /\ st' = Handle(P, base, Ln.a)
+              /\ ("ctype" \in DOMAIN Ln => CheckerAgrees(Ln, base, st'))
+              /\ "cmis" \notin DOMAIN Ln          \* the checker and the application do not even agree on how many steps ran
               /\ pend' = pend \cup NewlyAnswered(base, st')
            /\ fin' = st'.undef          \* undefined behaviour reached: the rest of this execution is not examined
            /\ Consume /\ UNCHANGED <<pid>>
